@@ -472,13 +472,17 @@ func e12PointCase(seed uint64, tr int, mech string, k, K int, ctxTrig bool) Case
 		}
 		if ctxTrig {
 			if c <= 0 {
-				r.Inc("no context consultation counted in the dry run")
+				// a library that does not look at its context again once it is running offers
+				// no such instant: nothing to judge (counted, not inconclusive)
+				r.Add("no-ctx-consultation-in-window", 1)
+				r.Key(id)
 				return
 			}
 			e12PointRun(r, seed, tr, "cancel", 0, 1+k*c/K)
 		} else {
 			if n <= 0 {
-				r.Inc("no logger point counted in the dry run")
+				r.Add("no-logger-point-in-window", 1) // a library that logs nothing here: nothing to trigger from
+				r.Key(id)
 				return
 			}
 			e12PointRun(r, seed, tr, mech, 1+k*n/K, 0)
